@@ -580,6 +580,76 @@ def r04e(ctx, run):
               "recorded result, so the code generator compiles it into the binary and its side effects happen again at run time" % (escape, (", line %s" % ln) if ln else ""))
 
 
+def _eval_byte_conversion(ctx, run, g, U):
+    """run a bytes -> bytes conversion from source on model integers (little endian): narrow value -> wide type"""
+    from symint import SymInterp
+    from absint import Obj, Term, Variant, Panic, CannotEstablish
+    import c08
+
+    class BI(SymInterp):
+        def eval(self, e, env):
+            if e.get("k") == "macro" and e["name"].rsplit("::", 1)[-1] == "vec":
+                toks = e.get("tokens", "")
+                if ";" in toks and e.get("a") is None:
+                    raise CannotEstablish("vec![..; ..] not parsed")
+                a = e.get("a") or []
+                if e.get("repeat") or (len(a) == 2 and ";" in toks):
+                    v, n_ = self.eval(a[0], env), self.eval(a[1], env)
+                    return [v] * n_
+                return [self.eval(x, env) for x in a]
+            if e.get("k") in ("ref",) or (e.get("k") == "un" and e.get("op") in ("*", "&")):
+                return self.eval(e["e"], env)
+            if e.get("k") == "cast":
+                return self.eval(e["e"], env)
+            return super().eval(e, env)
+
+        def default_method(self, recv, m, args, e):
+            if isinstance(recv, Obj) and recv.name == "NumberType" and m == "bit_width":
+                return c08.ty_bits(recv.fields["ty"])
+            if isinstance(recv, list):
+                if m in ("as_slice", "into_boxed_slice", "to_vec", "into_vec", "as_ref", "iter", "copied", "collect", "into"):
+                    return recv
+                if m == "concat":
+                    return [b for part in recv for b in part]
+                if m == "is_empty":
+                    return not recv
+                if m == "len":
+                    return len(recv)
+            return super().default_method(recv, m, args, e)
+    names = g.param_names()
+    tys = [str(p_.get("ty", "")) for p_ in g.params]
+    samples = [("u16 65005 -> i64", [0xED, 0xFD], ("I16", False), ("I64", True), 65005), ("i16 -531 -> i64", [0xED, 0xFD], ("I16", True), ("I64", True), -531),
+               ("u8 200 -> i32", [200], ("I8", False), ("I32", True), 200), ("i8 -56 -> i32", [200], ("I8", True), ("I32", True), -56),
+               ("u32 4000000000 -> i64", list((4000000000).to_bytes(4, "little")), ("I32", False), ("I64", True), 4000000000), ("u8 7 -> u64", [7], ("I8", False), ("I64", False), 7)]
+    for desc, bytes_, (fcl, fsigned), (tcl, tsigned), value in samples:
+        env, number_params = {}, [n_ for n_, t_ in zip(names, tys) if "NumberType" in t_]
+        for n_, t_ in zip(names, tys):
+            if "[u8]" in t_ or "Vec<u8>" in t_ or "Box<[u8]>" in t_:
+                env[n_] = list(bytes_)
+            elif "NumberType" in t_:
+                # a single NumberType parameter is the target; with two, the first is the source
+                is_src = len(number_params) == 2 and n_ == number_params[0]
+                env[n_] = c08.numty(fcl if is_src else tcl, False, fsigned if is_src else tsigned)
+            elif "Endianness" in t_:
+                env[n_] = Variant("Endianness::Little")
+            elif t_.replace(" ", "") == "bool":
+                env[n_] = fsigned       # a flag can only be the source's signedness (the target's is in its type)
+            else:
+                env[n_] = Term(n_)
+        key = "const-data-conversion:%s:%s" % (g.qual, desc)
+        try:
+            it = BI(macros={"assert": lambda i, e, env: None, "debug_assert": lambda i, e, env: None})
+            out = it.run_fn(g, env)
+        except (Panic, CannotEstablish) as c:
+            run.finding(U, key, g.file, g.ln, "cannot establish what %s makes of %s: %s" % (g.qual, desc, getattr(c, "what", c)))
+            continue
+        width = c08.BITS[tcl] // 8
+        want = list((value & ((1 << (8 * width)) - 1)).to_bytes(width, "little"))
+        run.check(out == want, g.site(), "%s: %s keeps the value" % (g.qual, desc), U, key, g.file, g.ln,
+                  "%s turns the bytes of %s into %s; the same value at the wider type is %s - a global declared wider than its comptime initialiser would hold another value in the "
+                  "built program than the block computed" % (g.qual, desc.split(" ->")[0], out, want))
+
+
 def r04f(ctx, run):
     """a global's constant data is WRITTEN at the type of its initialiser (expr_to_const_data consults the initialiser's own type) and READ at the
     global's declared type (compile_global loads at tys.sig).  When the checker accepted the initialiser through an implicit conversion - a
@@ -610,6 +680,19 @@ def r04f(ctx, run):
     for d, ch, sides in fn.conditions_of(c.bb, limit=12):
         if mentions_declared(ch) and any(n.get("kind") == "call" and short(n["callee"]) in ("index", "expr_ty", "get") for n in walk_chain(ch)):
             guard.append(d)
+    # a conversion on the bytes themselves is evaluated from source on model values: the result must be the bytes of the same VALUE at the declared type.
+    # (An unsigned 16-bit 65005 widened to a signed 64-bit type is 65005, not -531: the source's signedness decides how the new bytes are filled.)
+    for cv in conv:
+        name = short(cv["callee"])
+        cands = [g for g in ctx.syn.fns_in("codegen/src/compiler/comptime.rs") + ctx.syn.fns_in("codegen/src/compiler/functions.rs") + ctx.syn.fns_in("codegen/src/compiler/mod.rs")
+                 if g.body is not None and not g.in_test and g.qual.rsplit("::", 1)[-1] == name]
+        if len(cands) != 1:
+            run.finding(U, "const-data-conversion:" + name, c.file, c.ln, "the bytes of a global pass through %s, which the analysis cannot locate (%d candidates): not established that the "
+                        "value is kept" % (name, len(cands)))
+            continue
+        if not any(("[u8]" in str(p_.get("ty", "")) or "Vec<u8>" in str(p_.get("ty", ""))) for p_ in cands[0].params):
+            continue        # not a conversion of the bytes (a helper that only looks at the types)
+        _eval_byte_conversion(ctx, run, cands[0], U)
     if conv or guard:
         run.ok(c.site(), "constant data of a global is converted to / tested against the declared type (%s)" % ("conversion: " + short(conv[0]["callee"]) if conv else "guard at bb%d" % guard[0]))
     else:
@@ -624,9 +707,25 @@ RBITS = {"u8": 8, "u16": 16, "u32": 32, "u64": 64, "u128": 128, "f32": 32, "f64"
 
 def r04c(ctx, run):
     ev = ctx.syn.fn("eval_comptime_blocks", "codegen/src/compiler/comptime.rs")
-    m = [x for x in walk(ev.body) if x.get("k") == "match" and canon(x["e"]) == "number_ty.ty"]
+    # the capture table is the match whose arms call run_comptime_int / run_comptime_float
+    m = [x for x in walk(ev.body) if x.get("k") == "match" and sum(1 for a_ in x["arms"] if "run_comptime_" in canon(a_["b"])) >= 4]
     if len(m) != 1:
-        raise LookupError("match number_ty.ty in eval_comptime_blocks")
+        raise LookupError("the capture table (match with run_comptime_* arms) in eval_comptime_blocks: %d" % len(m))
+    # which results are read out of a register at all: only those whose final type is a NUMBER.  A pointer-class result (str, ?^T, a function) read as
+    # an integer is a host address of the compiling process: it would be stored as ComptimeResult::Integer and end up in the object file
+    outer = [x for x in walk(ev.body) if x.get("k") == "match" and any(any(y is m[0] for y in walk(a_["b"])) for a_ in x["arms"])]
+    gate_ok, gate_why = False, "the capture table is not an arm of a match on the result's final type"
+    for o in outer:
+        for a_ in o["arms"]:
+            if any(y is m[0] for y in walk(a_["b"])):
+                scrut, pat, guard = canon(o["e"]), canon(a_["p"]), canon(a_["g"]) if a_.get("g") is not None else ""
+                binder = canon(m[0]["e"]).split(".")[0]
+                gate_ok = scrut.replace(" ", "").endswith("get_final_ty()") and pat.replace(" ", "").startswith("FinalTy::Number(") and not guard and binder in pat
+                gate_why = "the register arm is `%s%s` of `match %s`" % (pat, (" if " + guard) if guard else "", scrut)
+    run.check(gate_ok, ev.site(m[0]["ln"]), "only FinalTy::Number results are read out of a register", "eval_comptime_blocks", "capture-gate", ev.file, m[0]["ln"],
+              "%s: a result is read out of the comptime function's return register only when its final type is a number (`FinalTy::Number(n)` of `get_final_ty()`); this gate "
+              "admits pointer-class results (str, optional pointers), whose 'value' is an address inside the compiling process - it differs from run to run and means nothing "
+              "in the built program" % gate_why)
     n = 0
     for h, p, g, b, arm in synq.match_table(m[0]):
         cl = synq.last_seg(h)
